@@ -215,7 +215,7 @@ def make_programs(ctx):
     ]
     assert len(corpus) == N_CORPUS
     progs = [list(p) for p in corpus]
-    n_rand = 85 if ctx.tier == "quick" else 350
+    n_rand = 60 if ctx.tier == "quick" else 350
     maxlen = 4 if ctx.tier == "quick" else 7
     for i in range(n_rand):
         cols = dict(cols0)
@@ -316,7 +316,7 @@ def opaque_frames(df, F):
 def run_opaque(ctx, session, F, rnd, n_passes, devs, order_dev):
     """actions on join / aggregation / set-operation DataFrames (no chain model): property relation + order independence"""
     items, metas = [], []
-    for tname in ("t1", "t2", "empty"):
+    for tname in (("t1", "empty") if ctx.tier == "quick" else ("t1", "t2", "empty")):
         rows = TABLES[tname]
         base_df = session.createDataFrame(rows, SCHEMA)
         for name, (mk, cm) in opaque_frames(base_df, F).items():
@@ -523,7 +523,9 @@ def run(ctx: core.Ctx):
         if len(ctx.samples) < 4 and len(m["steps"]) >= 2 and m["cr"]:
             ctx.sample({"program": desc0["program"], "table": m["table"], "mode": m["mode"], "verdict": r,
                         "actions": [list(a) for a in m["acts"]]})
+    ctx.log("chain cases evaluated")
     n_opaque = run_opaque(ctx, session, F, rnd, n_passes, devs, order_dev2 := [])
+    ctx.log(f"{n_opaque} observations on join/aggregation/set-operation DataFrames")
     if order_dev2 and not order_dev:
         d = order_dev2[0]
         ctx.deviation(f"C11/result-depends-on-action-order:{d['action'][0]}",
